@@ -1,6 +1,7 @@
 package gradtrack
 
 import "github.com/sahandsafizadeh/qeep/tensor/internal/tensor"
+import "github.com/sahandsafizadeh/qeep/tensor/internal/verifhook"
 
 func BackPropagate(t tensor.Tensor) (err error) {
 	return backward(startEdge(t))
@@ -24,6 +25,8 @@ func backward(edge *backwardEdge) (err error) {
 	} else {
 		gctx.bpdirty = true
 	}
+
+	verifhook.Point("backward")
 
 	grad, err := edge.gradFn()
 	if err != nil {
